@@ -93,6 +93,11 @@ def fetch_schema_locations(source: Union['XMLResource', XMLSourceType],
         # (e.g. the base directory of a sandbox).
         base_url = resource.base_url
 
+    if base_url is None and allow == 'sandbox':
+        # Without a base each location hint would be the sandbox of itself
+        raise XMLSchemaValueError("block access to files out of sandbox requires "
+                                  "'base_url' to be set or a local source URL")
+
     namespace = resource.namespace
     for ns, location in sorted(locations, key=lambda x: x[0] != namespace):
         try:
